@@ -584,12 +584,20 @@ def bytesFetchedV (v : Variant) (ncpChunk : Nat) (file : Bytes) : Nat :=
     beyond the end of the file, so the guard of `guardRun` is not needed (and never fires). -/
 def openGuardedV (v : Variant) (limit : Nat) (file : Bytes) : Verdict :=
   if v.eof then
+    -- was a 64-bit word ≥ 2^63 read before the run stopped?  (`guardRun` with limit 0 stops exactly where `runE` does)
+    let wide : Bool := match checkMagic (ztake 12 file) with
+      | .error _ => false
+      | .ok f =>
+        match guardRun file.length 0 (getBodyS v.int63 f) (file.drop 4) 4 false with
+        | .ok _ _ _ w => w
+        | .err _ _ w => w
+        | .big _ _ w => w
     match inqFileFormat file with
     | .error e => .err e false
     | .ok _ =>
       match decodeWholeVar v file with
-      | .error e => .err (.hdr e) false
-      | .ok (h, info) => .ok h info false
+      | .error e => .err (.hdr e) wide
+      | .ok (h, info) => .ok h info wide
   else openGuardedS v.int63 limit file
 
 end PnVerif.Safety
